@@ -74,7 +74,12 @@ class TailCallOptimization(FunctionPass):
         """Replace tail calls by jumps to the old entry of this function."""
         z = []
         z.append((function.entry, function.arguments))
-        new_entry = ir.Block("new_entry")
+        # Block names end up as labels, so they must be unique in a module:
+        names = {block.name for block in function}
+        name = f"{function.name}_new_entry"
+        while name in names:
+            name += "_"
+        new_entry = ir.Block(name)
         function.add_block(new_entry)
         function.blocks.insert(0, function.blocks.pop())
         old_entry = function.entry
